@@ -112,7 +112,7 @@ def op : P Op := do
   let t ← tok
   match t with
   | "sch" => do let sp ← rawSpec; let clock ← int; pure (.sched sp clock)
-  | "job" => do let sp ← rawSpec; let clock ← int; pure (.ctor sp clock)
+  | "job" => do let sp ← rawSpec; let clock ← int; let jtz ← optInt; pure (.ctor sp clock jtz)
   | "exec" => do
       let clock ← int; let force ← bool
       let order ← listOf nat; let raises ← listOf nat; let scripts ← listOf script
